@@ -1,0 +1,28 @@
+//go:build verif
+
+package revocation
+
+import (
+	"github.com/caddyserver/caddy/v2/caddyconfig/caddyfile"
+	"github.com/gr33nbl00d/caddy-revocation-validator/crl"
+	"github.com/gr33nbl00d/caddy-revocation-validator/ocsp"
+)
+
+// Verification-only accessors (build tag verif). They expose unexported state to the
+// external correspondence harness and change no behaviour.
+
+func (c *CertRevocationValidator) VerifCRLChecker() *crl.CRLRevocationChecker {
+	return c.crlRevocationChecker
+}
+
+func (c *CertRevocationValidator) VerifOCSPChecker() *ocsp.OCSPRevocationChecker {
+	return c.ocspRevocationChecker
+}
+
+func VerifParseConfigFromCaddyfile(d *caddyfile.Dispenser) (*CertRevocationValidatorConfig, error) {
+	return parseConfigFromCaddyfile(d)
+}
+
+func VerifIsOCSPCheckingEnabled(c *CertRevocationValidator) bool { return isOCSPCheckingEnabled(c) }
+func VerifIsCRLCheckingEnabled(c *CertRevocationValidator) bool  { return isCRLCheckingEnabled(c) }
+func VerifParseMode(c *CertRevocationValidator) error             { return parseMode(c) }
